@@ -56,17 +56,24 @@ def settle_unknown(obl, r, task, solve):
     it is a *regressed obligation*: reported as a violation without a failing input."""
     if r.status != "unknown":
         return r
-    # every undecided obligation gets one retry with four times the budget (a loaded machine must not flip a verdict)
-    r2 = solve.discharge(obl, timeout_ms=4 * task["timeout_ms"])
+    # every undecided obligation is retried under other random seeds (two attempts with twice the budget each): a loaded machine or an unlucky
+    # instantiation order must not flip a verdict
+    T = task["timeout_ms"]
+    r2 = r
+    for seed in (1, 2):
+        r2 = solve.discharge(obl, timeout_ms=2 * T, seed=seed)
+        if r2.status != "unknown":
+            return r2
     if task.get("record") or norm_name(obl.name) not in baseline_set(task["prop"]):
         return r2
-    if r2.status == "unknown":
-        # before an obligation of the committed baseline is reported as regressed (= a violation) it gets a last attempt with eight times the
-        # budget: a verdict on the unchanged tree must not depend on how busy the machine is
-        r2 = solve.discharge(obl, timeout_ms=8 * task["timeout_ms"])
-    if r2.status == "unknown":
-        r2.status = "regressed"
-        r2.reason = f"discharged on the unchanged tree, now undecided after retries with {4 * task['timeout_ms']} and {8 * task['timeout_ms']} ms: {r2.reason}"
+    # before an obligation of the committed baseline is reported as regressed (= a violation) it gets four more attempts (seeds 3-6; the last one with
+    # four times the budget): a verdict on the unchanged tree must depend neither on how busy the machine is nor on solver luck
+    for seed, mult in ((3, 2), (4, 2), (5, 2), (6, 4)):
+        r2 = solve.discharge(obl, timeout_ms=mult * T, seed=seed)
+        if r2.status != "unknown":
+            return r2
+    r2.status = "regressed"
+    r2.reason = f"discharged on the unchanged tree, now undecided after six retries under different random seeds (budgets 2x-4x {T} ms): {r2.reason}"
     return r2
 
 
